@@ -444,7 +444,8 @@ class SQLParser:
     def _parse_alias_expression(cls, scanner: TokenScanner) -> Optional[node.ASTAlisaExpression]:
         if scanner.search_and_move_one_type_str_use_upper("AS"):
             return node.ASTAlisaExpression(name=cls._get_alias_name(scanner))
-        if scanner.search_one_type_mark(AMTMark.NAME):
+        if (scanner.search_one_type_mark(AMTMark.NAME)
+                and not scanner.search_one_type_set_use_upper({"CROSS", "USING", "SORT", "DISTRIBUTE", "CLUSTER"})):
             return node.ASTAlisaExpression(name=cls._unify_name(scanner.pop_as_source()))
         return None
 
